@@ -342,6 +342,13 @@ struct DeflateSession {
                 last_drained = st->avail_out > 0;
                 h.rec("defl", { feed, out, flush, (int) eos, ret, consumed, produced, st_before, st_after, st->total_in, st->total_out, (int64_t) oh });
                 h.sigmix(((uint64_t) st_before << 40) ^ ((uint64_t) st_after << 32) ^ (size_class(consumed) << 16) ^ (size_class(produced) << 8) ^ flush ^ ((uint64_t) eos << 4));
+                {
+                        static uint64_t *tr[ZSTATE_TMP_END + 1][ZSTATE_TMP_END + 1];
+                        uint64_t *&c = tr[st_before][st_after];
+                        if (!c)
+                                c = &g_cnt.m[strf("transition.deflate.%d>%d", st_before, st_after)];
+                        ++*c;
+                }
                 if (st_after >= ZSTATE_TMP_NEW_HDR && st_after != st_before) {
                         COUNT("probe.zstate_tmp_entered");
                         h.unusual++;
